@@ -28,7 +28,7 @@ def fit_entities(p):
 def run(p, report, tier):
     report.rule("R13.2", "in every fit (callees summarised through the MRO, literal fit_function propagated as a path "
                 "fact) every read of a fitted attribute self.a_ / self._a is preceded on all paths by a store in the "
-                "same fit call; hasattr(self, 'a_') being true does not count as a store", floor=12)
+                "same fit call; hasattr(self, 'a_') being true does not count as a store", floor=10)
     report.rule("R13.3", "SlidingWindowClassifier: every deque stored in X_train_, y_train_, sample_weight_train_ is "
                 "created with maxlen=self.window_size, fit re-creates all three, partial_fit extends all three", floor=5)
     ents = fit_entities(p)
